@@ -520,7 +520,94 @@ error: {:?}", out.replay(), e)),
 			));
 			self.cert(&p, None, "ed25519", false);
 		}
-		self.rep.exhaustive.push("CIDR prefix lengths 0..=255 for IPv4 and IPv6".into());
+		// the same subnets through the address-typed constructor
+		for pfx in [0u8, 1, 7, 8, 9, 24, 31, 32, 33, 64, 127, 128, 129, 255] {
+			let mut p = PCert::default_like();
+			if cfg!(feature = "nocrypto") {
+				p.serial = Some(vec![5]);
+				p.kid = Kid::Pre(vec![1; 20]);
+			}
+			p.ca = Ca::Ca(None);
+			p.nc = Some((
+				vec![Subtree::Ipap("192.0.2.129".parse().unwrap(), pfx), Subtree::Ipap("::ffff:192.0.2.129".parse().unwrap(), pfx)],
+				vec![Subtree::Ipap("2001:db8::ff00:0:8001".parse().unwrap(), pfx)],
+			));
+			self.cert(&p, None, "ed25519", false);
+		}
+		self.rep.exhaustive.push("CIDR prefix lengths 0..=255 for IPv4 and IPv6 (from_v4_prefix / from_v6_prefix), 14 boundary prefixes through from_addr_prefix incl. an IPv4-mapped IPv6 address".into());
+	}
+
+	/// the rest of the public surface that builds parameters or artefacts: convenience
+	/// constructors must mean what the long way means
+	pub fn api_surface(&mut self) {
+		// insert_extended_key_usage: set semantics on a list
+		if let Some(mut rp) = PCert::default_like().real() {
+			use ExtendedKeyUsagePurpose::*;
+			for e in [ServerAuth, ClientAuth, ServerAuth, Any, ClientAuth, Other(vec![1, 2, 3]), Other(vec![1, 2, 3])] {
+				rp.insert_extended_key_usage(e);
+			}
+			let want = vec![ServerAuth, ClientAuth, Any, Other(vec![1, 2, 3])];
+			self.rep.case("insert_extended_key_usage x7", true);
+			if rp.extended_key_usages != want {
+				self.rep.violate(&format!("{}:insert-extended-key-usage", self.prop), "insert_extended_key_usage does not keep the first occurrence of each purpose in order", format!("{:?}", rp.extended_key_usages));
+			}
+			let mut p = PCert::default_like();
+			p.eku = want;
+			if cfg!(feature = "nocrypto") {
+				p.serial = Some(vec![5]);
+				p.kid = Kid::Pre(vec![1; 20]);
+			}
+			self.cert(&p, None, "ed25519", false);
+		}
+		// the ACME identifier extension: critical, an OCTET STRING holding the digest
+		{
+			let digest: Vec<u8> = (0u8..32).collect();
+			let ext = CustomExtension::new_acme_identifier(&digest);
+			let mut content = vec![0x04, 0x20];
+			content.extend(&digest);
+			self.rep.case("new_acme_identifier", true);
+			if !ext.criticality() || ext.content() != &content[..] || ext.oid_components().collect::<Vec<_>>() != vec![1, 3, 6, 1, 5, 5, 7, 1, 31] {
+				self.rep.violate(&format!("{}:acme-identifier", self.prop), "new_acme_identifier does not build the critical id-pe-acmeIdentifier extension around the digest (RFC 8737)", format!("critical={} content={}", ext.criticality(), hex(ext.content())));
+			}
+			let mut p = PCert::default_like();
+			p.custom = vec![Custom { oid: vec![1, 3, 6, 1, 5, 5, 7, 1, 31], critical: true, content }];
+			if cfg!(feature = "nocrypto") {
+				p.serial = Some(vec![5]);
+				p.kid = Kid::Pre(vec![1; 20]);
+			}
+			self.cert(&p, None, "ed25519", false);
+		}
+		// date_time_ymd: midnight UTC of that day
+		for (y, m, d, unix) in [(1970, 1, 1, 0i64), (2000, 2, 29, 951_782_400), (1949, 12, 31, -631_238_400), (2050, 1, 1, 2_524_608_000), (9999, 12, 31, 253_402_214_400), (1, 1, 1, -62_135_596_800)] {
+			let dt = rcgen::date_time_ymd(y, m, d);
+			self.rep.case(&format!("date_time_ymd {} {} {}", y, m, d), true);
+			if dt.unix_timestamp() != unix || dt.offset().whole_seconds() != 0 || dt.nanosecond() != 0 {
+				self.rep.violate(&format!("{}:date-time-ymd", self.prop), "date_time_ymd is not midnight UTC of the given day", format!("{}-{}-{} -> {:?}", y, m, d, dt));
+			}
+		}
+		// generate_simple_self_signed: the certificate of CertificateParams::new(names) under the returned key
+		#[cfg(not(feature = "nocrypto"))]
+		{
+			let names = vec!["a.example".to_string(), "192.0.2.7".to_string(), "2001:db8::1".to_string()];
+			if let Ok(ck) = rcgen::generate_simple_self_signed(names.clone()) {
+				let want = CertificateParams::new(names.clone()).ok();
+				self.rep.case("generate_simple_self_signed", true);
+				if Some(ck.cert.params()) != want.as_ref() {
+					self.rep.violate(&format!("{}:simple-self-signed", self.prop), "generate_simple_self_signed does not use CertificateParams::new(names)", format!("{:?}", ck.cert.params()));
+				}
+				let p = PCert::of_real(ck.cert.params());
+				let line = format!("spec-cert {} {} self {}", p.sexp(), key_sexp(&ck.key_pair), hex(ck.cert.der()));
+				let resp = self.drv.ask(&line);
+				for clause in Self::parse_fail(&resp) {
+					if self.mine(&clause) {
+						self.rep.violate(&format!("{}:simple-self-signed", clause), "the certificate of generate_simple_self_signed violates a specification clause for its parameters and key", format!("spec-request: {}\nspec-answer: {}", line, resp));
+					}
+				}
+			} else {
+				self.rep.violate(&format!("{}:simple-self-signed", self.prop), "generate_simple_self_signed fails on plain names", String::new());
+			}
+		}
+		self.rep.exhaustive.push("convenience constructors: insert_extended_key_usage, new_acme_identifier, date_time_ymd at 6 dates, generate_simple_self_signed".into());
 	}
 
 	pub fn kid_sweep(&mut self) {
@@ -627,7 +714,7 @@ error: {:?}", out.replay(), e)),
 
 	pub fn time_sweep(&mut self) {
 		let mut offsets: Vec<i32> = (-25..=25).map(|h| h * 3600).collect();
-		offsets.extend([60, -60, 20700, -20700, 93599, -93599]);
+		offsets.extend([60, -60, 20700, -20700, 93599, -93599, 1, -1, 59, 1172, -17762]);
 		// instants given as UTC (y, mo, d, h, mi, s) around the boundaries
 		let anchors: Vec<(i32, u8, u8)> = vec![(1950, 1, 1), (2050, 1, 1), (2000, 2, 29), (2024, 2, 29), (2100, 3, 1), (1, 1, 3), (9998, 12, 29), (1970, 1, 1)];
 		let deltas: Vec<i64> = vec![0, 1, -1, 1800, -1800, 3600, -3600, 93600, -93600];
@@ -683,6 +770,44 @@ error: {:?}", out.replay(), e)),
 			let dt = gen_dt(&mut self.rng);
 			self.time_case(&dt);
 		}
+	}
+
+	/// the times at which the RFC 5280 choice of time type flips, in offsets that put the local
+	/// year on the other side, with and without a sub-second part: through a certificate's
+	/// validity and through every time field of a CRL
+	pub fn time_edge_sweep(&mut self) {
+		let offsets = [0i32, 3600, -3600, 1800, -1800, 93599, -93599, 1172, -17762];
+		let mut k = 0usize;
+		for (y, mo, d) in [(1950, 1, 1), (2050, 1, 1)] {
+			let base = time::Date::from_calendar_date(y, time::Month::try_from(mo).unwrap(), d).unwrap().midnight().assume_utc();
+			for delta in [0i64, 1, -1, 1800, -1800, 3600, -3600] {
+				let inst = base + time::Duration::seconds(delta);
+				for off in offsets {
+					let Ok(o) = time::UtcOffset::from_whole_seconds(off) else { continue };
+					let Some(local) = inst.checked_to_offset(o) else { continue };
+					for ns in [0u32, 1] {
+						k += 1;
+						let dt = Dt { y: local.year(), mo: local.month() as u8, d: local.day(), h: local.hour(), mi: local.minute(), s: local.second(), ns, off };
+						self.time_case(&dt);
+						if k % 4 == 0 {
+							// the same value as thisUpdate, revocation time and invalidity date of a CRL
+							let later = inst + time::Duration::days(400);
+							let next = Dt { y: later.year(), mo: later.month() as u8, d: later.day(), h: later.hour(), mi: later.minute(), s: later.second(), ns: 0, off: 0 };
+							let crl = PCrl {
+								this: dt.clone(),
+								next,
+								number: vec![1],
+								idp: None,
+								revoked: vec![PRevoked { serial: vec![9], time: dt.clone(), reason: Some(RevocationReason::KeyCompromise), invalidity: Some(dt.clone()) }],
+								kid: if cfg!(feature = "nocrypto") { Kid::Pre(vec![1; 20]) } else { Kid::Sha256 },
+							};
+							self.crl(&crl, 0);
+						}
+					}
+				}
+			}
+		}
+		self.rep.exhaustive.push("time-type choice edges: 1950-01-01 and 2050-01-01 UTC, 0 / +-1 s / +-30 min / +-1 h, in 9 offsets (incl. offsets with a seconds part), with and without nanoseconds — certificate validity, and every fourth also as thisUpdate / revocation time / invalidity date of a CRL".into());
 	}
 
 	/// one time value through a real certificate's notBefore
@@ -1147,6 +1272,7 @@ pub fn run(ctx: &mut Ctx, prop: &str) -> Report {
 			s.ca_sweep();
 			s.prefix_sweep();
 			s.kid_sweep();
+			s.api_surface();
 			s.random_certs(n(600, 40000));
 		},
 		"C04" => {
@@ -1159,6 +1285,7 @@ pub fn run(ctx: &mut Ctx, prop: &str) -> Report {
 			s.csr_attr_sweep();
 			s.crl_enum_sweep();
 			s.string_kind_sweep();
+			s.time_edge_sweep();
 			s.random_certs(n(300, 15000));
 			s.random_csrs(n(200, 8000));
 			s.random_crls(n(200, 8000));
@@ -1187,10 +1314,12 @@ pub fn run(ctx: &mut Ctx, prop: &str) -> Report {
 			s.crl_enum_sweep();
 			s.crl_issuer_ku_sweep();
 			s.serial_sweep();
+			s.time_edge_sweep();
 			s.random_crls(n(800, 30000));
 		},
 		"C09" => {
 			s.time_sweep();
+			s.time_edge_sweep();
 			s.random_certs(n(150, 5000));
 			s.random_crls(n(300, 10000));
 		},
